@@ -151,6 +151,9 @@ pub fn defer_panicking(tid: usize, g: &Guard) {
         circ::verif::defer(g, move || {
             ran(k, true);
             sim().fault("panic_in_deferred_function");
+            // the unwinding leaves the rest of the bag this function sat in unrun (a participant
+            // record queued for release behind it stays allocated): not judged
+            shadow().ebr.bag_lost_to_panic = true;
             std::panic::resume_unwind(Box::new(crate::interp::InjectedPanic));
         })
     }
